@@ -12,8 +12,8 @@ from .c09 import finish
 
 KINDS = {
     'C01': ['flat', 'combo', 'multi', 'nested', 'tworoots', 'payload', 'targs:nested_arg', 'targs:generic', 'combo'],
-    'C02': ['flat', 'multi', 'nested', 'nested', 'unsized', 'split', 'nestedx', 'tworoots', 'payload', 'arity', 'targs:nested_arg', 'combo', 'combo'],
-    'C04': ['overlap', 'overlap', 'flat', 'nested', 'overlap', 'nestedx', 'targs:nested_arg', 'arity'],
+    'C02': ['flat', 'multi', 'nested', 'nested', 'unsized', 'split', 'nestedx', 'tworoots', 'payload', 'arity', 'targs:nested_arg', 'combo', 'combo', 'targs:unsized_where'],
+    'C04': ['overlap', 'overlap', 'flat', 'nested', 'overlap', 'nestedx', 'targs:nested_arg', 'arity', 'tworoots_overlap'],
 }
 PREFIX = {'C01': ['C01_'], 'C02': ['C02_'], 'C04': ['C04_']}
 
@@ -144,6 +144,18 @@ def run_prop(prop, tier, seed, replay=None, make_cases=None):
         stats['programs'] += istats['programs']
         nontrivial |= inon
         violations += [v for v in iviol if 'expected items' in v['oracle'] or 'does not compile' in v['oracle']]
+        icase_invs = [c17.invocation(c) for c in icases]
+    elif prop == 'C15':
+        # inherent mode over structs with a parameter that may be unsized: whichever block of the
+        # family relaxes it (only a later one, only the first, all) the invocation compiles and
+        # unsized instantiations obtain exactly the block they satisfy
+        from . import c17
+        ni = 10 if tier == 'quick' else 120
+        icases, istats, inon, iviol = c17.core(rng, 0, cases=[c17.gen(rng, idx=i, structs=['w6', 'w7']) for i in range(ni)])
+        stats['inherent_mode'] = dict(cases=istats['cases'], programs=istats['programs'], values_checked=istats['values_checked'], rejected=istats['rejected'])
+        stats['programs'] += istats['programs']
+        nontrivial |= inon
+        violations += iviol
         icase_invs = [c17.invocation(c) for c in icases]
     else:
         icase_invs = []
